@@ -223,7 +223,12 @@ macro_rules! impl_derivatives {
 
             #[inline]
             fn atan2(&self, other: Self) -> Self {
-                let mut res = (self / other.clone()).atan();
+                // atan(y/x) and -atan(x/y) have the same derivatives; use the quotient that stays finite on the axes
+                let mut res = if other.re().abs() >= self.re().abs() {
+                    (self / other.clone()).atan()
+                } else {
+                    -(other.clone() / self).atan()
+                };
                 res.re = self.re.atan2(other.re);
                 res
             }
